@@ -901,7 +901,9 @@ partial def runHsCase (lines : Array String) : Array String := Id.run do
           | .error e => stage := .dead; for l in finish t0 s!"hs err {showHsErr e}" [] do out := out.push l
           | .ok hm =>
             let rh := s!"reqheaders {showKvList hm.iter}"
-            match clientStart u hm with
+            let methodIsGet := (kv hcfg "cmethod").getD "GET" == "GET"
+            let versionOk := (kv hcfg "cversion").getD "11" != "10"
+            match clientStartChecked methodIsGet versionOk u hm with
             | .error e => stage := .dead; for l in finish t0 s!"hs err {showHsErr e}" [rh] do out := out.push l
             | .ok (vd, req) =>
               let m : ClientMid := { verify := vd, state := .writing req }
